@@ -23,7 +23,9 @@ Record dump := mkDump {
    (OnPersist, transactions, PostPersist, in order), the dump at the end *)
 Record blockrec := mkB { b_txs : list tx; b_events : list event; b_dump : dump }.
 
-Inductive case := CHist (cfg : config) (blocks : list blockrec).
+(* CDirect: a history on a chain WITHOUT Echidna (no notification limit; the model is of the Echidna rules): every clause
+   was evaluated on the real chain by the harness (co.violation), nothing is left for the model to compare *)
+Inductive case := CHist (cfg : config) (blocks : list blockrec) | CDirect (nops : Z).
 
 (* ---------- canonical form of the model state ---------- *)
 Fixpoint insert_by {V} (x : N * V) (l : list (N * V)) : list (N * V) :=
@@ -161,4 +163,5 @@ Definition check_case (c : case) : N :=
         let '(m, s) := check_blocks cfg (Some (genesis cfg)) None blocks in
         code_of m s
       else 3%N
+  | CDirect _ => 0%N
   end.
